@@ -38,7 +38,7 @@ RULE = (
     "ndarrays, np.bool_, 1/0) with falsy-but-valid values (extra coordinate 0 everywhere, weights exactly 1); large-offset data with "
     "|mean| = 1e4..2e6 spreads for all three rules; calls with 130 000 / 230 000 / 262 145 points - unweighted over thousands of blocks with "
     "singletons, weighted / uncertainty over a few hundred - with the variance convention required to be the same for the whole run; weights exactly 0.0 in all components on points ON the "
-    "bounding box of the cloud with the region not given (control: given), both uncertainty settings, every block keeping a positive weight) "
+    "bounding box of the cloud with the region not given (control: given), both uncertainty settings, every block keeping a positive weight, and weights exactly 0.0 on different points in different components (2-3 components, 10-30 % of the points, positive in the other components)) "
     "or one variance_to_weights call (2-D and 3-D variances spelled as nested lists or lists of arrays = ONE array, tuples = components; (tol as Python/numpy int or float, np.float32, 0-d "
     "array; dtype as str / type / np.dtype; bare Python and numpy scalars, all-zero variances; arrays of 1..40 variances 10^[-6,6] with zeros, 1e-300, NaNs, negatives, values "
     "at / beside tol, 1-D/2-D/0-d, tuples of 1..3 arrays, lists, Series, read-only, float32/int input, tol in {default,0,1e-3,10}, "
@@ -120,16 +120,19 @@ FLOORS = {
         "eval:variance_convention_consistent": 300, "blocks_judged_in_calls_with_more_than_100000_points": 1300,
         "single_member_blocks_in_calls_with_more_than_100000_points": 85, "v2w_class:list_of_rows_as_list(2-D)": 20,
         "v2w_class:list_of_rows_as_array(2-D)": 23, "v2w_class:list_of_rows_as_list(3-D)": 4, "v2w_class:container:list": 110,
-        "class:weights_exactly_0_in_all_components_on_some_points": 28,
-        "class:zero_weight_point_on_the_bounding_box:region_inferred": 20,
-        "class:zero_weight_point_on_the_bounding_box:region_given": 6,
-        "zero_weight_border_calls:points_on_the_box_with_weight_0": 110, "zero_weight_border_calls:uncertainty=True": 12,
-        "zero_weight_border_calls:uncertainty=False": 12, "eval:constructor_parameters_as_documented": 710,
+        "class:weights_exactly_0_in_all_components_on_some_points": 21,
+        "class:zero_weight_point_on_the_bounding_box:region_inferred": 13,
+        "class:zero_weight_point_on_the_bounding_box:region_given": 5,
+        "zero_weight_border_calls:points_on_the_box_with_weight_0": 86, "zero_weight_border_calls:uncertainty=True": 8,
+        "zero_weight_border_calls:uncertainty=False": 10, "eval:constructor_parameters_as_documented": 710,
         "eval:defaults_equal_documented_defaults_spelled_out": 48, "defaulted_argument:BlockMean.filter.weights": 4,
         "defaulted_argument:BlockMean.__init__.adjust": 490, "defaulted_argument:BlockMean.__init__.center_coordinates": 290,
         "defaulted_argument:BlockMean.__init__.drop_coords": 410, "defaulted_argument:BlockMean.__init__.region": 290,
         "defaulted_argument:BlockMean.__init__.uncertainty": 350, "defaulted_argument:variance_to_weights.tol": 1600,
-        "defaulted_argument:variance_to_weights.dtype": 1900,
+        "defaulted_argument:variance_to_weights.dtype": 1900, "class:weight_exactly_0_in_some_but_not_all_components": 21,
+        "class:weight_exactly_0_in_some_but_not_all_components:2_components": 10,
+        "class:weight_exactly_0_in_some_but_not_all_components:3_components": 8,
+        "zero_weight_per_component_calls:uncertainty=True": 8, "zero_weight_per_component_calls:uncertainty=False": 9,
     },
     "thorough": {
         "eval:blockmean_returns": 11600, "eval:blockmean_layout": 11600, "eval:labels_vs_reference_geometry": 11600,
@@ -185,16 +188,19 @@ FLOORS = {
         "blocks_judged_in_calls_with_more_than_100000_points": 36500,
         "single_member_blocks_in_calls_with_more_than_100000_points": 12500, "v2w_class:list_of_rows_as_list(2-D)": 380,
         "v2w_class:list_of_rows_as_array(2-D)": 420, "v2w_class:list_of_rows_as_list(3-D)": 120,
-        "v2w_class:container:list": 1900, "class:weights_exactly_0_in_all_components_on_some_points": 430,
-        "class:zero_weight_point_on_the_bounding_box:region_inferred": 320,
-        "class:zero_weight_point_on_the_bounding_box:region_given": 100,
-        "zero_weight_border_calls:points_on_the_box_with_weight_0": 1700, "zero_weight_border_calls:uncertainty=True": 210,
-        "zero_weight_border_calls:uncertainty=False": 210, "eval:constructor_parameters_as_documented": 10500,
+        "v2w_class:container:list": 1900, "class:weights_exactly_0_in_all_components_on_some_points": 320,
+        "class:zero_weight_point_on_the_bounding_box:region_inferred": 240,
+        "class:zero_weight_point_on_the_bounding_box:region_given": 81,
+        "zero_weight_border_calls:points_on_the_box_with_weight_0": 1200, "zero_weight_border_calls:uncertainty=True": 160,
+        "zero_weight_border_calls:uncertainty=False": 160, "eval:constructor_parameters_as_documented": 10500,
         "eval:defaults_equal_documented_defaults_spelled_out": 570, "defaulted_argument:BlockMean.filter.weights": 68,
         "defaulted_argument:BlockMean.__init__.adjust": 7200, "defaulted_argument:BlockMean.__init__.center_coordinates": 4300,
         "defaulted_argument:BlockMean.__init__.drop_coords": 6000, "defaulted_argument:BlockMean.__init__.region": 4400,
         "defaulted_argument:BlockMean.__init__.uncertainty": 5200, "defaulted_argument:variance_to_weights.tol": 25000,
-        "defaulted_argument:variance_to_weights.dtype": 29400,
+        "defaulted_argument:variance_to_weights.dtype": 29400, "class:weight_exactly_0_in_some_but_not_all_components": 310,
+        "class:weight_exactly_0_in_some_but_not_all_components:2_components": 160,
+        "class:weight_exactly_0_in_some_but_not_all_components:3_components": 150,
+        "zero_weight_per_component_calls:uncertainty=True": 160, "zero_weight_per_component_calls:uncertainty=False": 160,
     },
 }
 JOBS = {"quick": 1, "thorough": 16}
@@ -206,8 +212,8 @@ EPS = blk.EPS
 
 def plan(tier):
     if tier == "quick":
-        return collections.OrderedDict(blockmean=105, plateau=26, series=30, reject=8, nested=6, v2w=45, v2w_nested_readonly=8, reuse=20, inplace=12, reconfigure=30, spellings=36, large_offset=18, zero_weights=12, defaults=5, large=2)
-    return collections.OrderedDict(blockmean=1580, plateau=390, series=450, reject=60, nested=80, v2w=680, v2w_nested_readonly=60, reuse=300, inplace=180, reconfigure=450, spellings=540, large_offset=270, zero_weights=180, defaults=60, large=16)
+        return collections.OrderedDict(blockmean=105, plateau=26, series=30, reject=8, nested=6, v2w=45, v2w_nested_readonly=8, reuse=20, inplace=12, reconfigure=30, spellings=36, large_offset=18, zero_weights=18, defaults=5, large=2)
+    return collections.OrderedDict(blockmean=1580, plateau=390, series=450, reject=60, nested=80, v2w=680, v2w_nested_readonly=60, reuse=300, inplace=180, reconfigure=450, spellings=540, large_offset=270, zero_weights=270, defaults=60, large=16)
 
 
 # ----------------------------------------------------------------------
@@ -970,6 +976,23 @@ def _zero_weight_border(run, rng, verde):
         verde.BlockMean(**kwargs).filter((east, north), data[0] if ncomp == 1 else tuple(data), weights[0] if ncomp == 1 else tuple(weights))
 
 
+def _zero_weight_per_component(run, rng, verde):
+    """
+    2-3 components whose weights are exactly 0.0 on different points in different components (positive in the others), both
+    uncertainty settings: weighted mean, variance / sum of weights and the [0, 1] normalisation are per component, with ITS OWN weights.
+    """
+    ncomp = int(rng.choice([2, 3]))
+    east, north = blk.make_points(rng, n=int(rng.integers(12, 70)))
+    kwargs = blk.make_blocks(rng, east, north)
+    weights = blk.per_component_zero_weights(rng, east, north, kwargs, ncomp)
+    kwargs["uncertainty"] = bool(rng.random() < 0.5)
+    data = _fields(rng, east, north, ncomp)
+    run.count("zero_weight_per_component_calls:uncertainty=%s" % kwargs["uncertainty"])
+    with warnings.catch_warnings():
+        warnings.simplefilter("ignore")
+        verde.BlockMean(**kwargs).filter((east, north), tuple(data), tuple(weights))
+
+
 def _large_call(run, rng, verde, index):
     """
     More than 100 000 points in one BlockMean.filter call. Without weights: many blocks of very different populations, singletons
@@ -1106,8 +1129,11 @@ def run_case(run, tap, stream, index, rng):
     elif stream == "defaults":
         _defaults(run, rng, verde)
     elif stream == "zero_weights":
-        for _ in range(CALLS_PER_CASE):
-            _zero_weight_border(run, rng, verde)
+        for k in range(CALLS_PER_CASE):
+            if k % 2:
+                _zero_weight_border(run, rng, verde)
+            else:
+                _zero_weight_per_component(run, rng, verde)
     elif stream == "spellings":
         for _ in range(CALLS_PER_CASE):
             _one_call(run, rng, verde, spelled=True, layout=str(rng.choice(["1d", "1d", "2d", "series", "readonly"])), npoints=0)
